@@ -145,7 +145,7 @@ func bareName(c string) bool {
 	if ascii {
 		// (ASCII words may be keywords of SQLite or of the driver's grammar)
 		switch c {
-		case "a", "b", "c", "d", "e", "f", "g", "x1", "y_2", "data", "Ab":
+		case "a", "b", "c", "d", "e", "f", "g", "x1", "y_2", "data", "Ab", "fail", "ignore", "abort", "rollback", "z", "Z_z":
 			return true
 		}
 		return false
@@ -220,6 +220,11 @@ func run(r *vt.Run, t vt.TB, s spec) {
 			return c
 		}
 		nq++
+		switch fold.Lower(c) {
+		case "fail", "ignore", "abort", "rollback":
+			// words of the ON CONFLICT clause: ordinary names in a select list
+			return c
+		}
 		if (s.Corrupt+nq)%3 == 0 && bareName(c) {
 			// written without quotes where SQLite takes the name as it is
 			return c
@@ -236,6 +241,13 @@ func run(r *vt.Run, t vt.TB, s spec) {
 			picks[s.Star] = i
 			r.Count("select:wildcard-before-a-column-called-star", 1)
 			break
+		}
+	}
+	for i, c := range allCols {
+		switch fold.Lower(c) {
+		case "fail", "ignore", "abort", "rollback":
+			picks = append(picks, i)
+			r.Count("select:conflict-word-as-a-bare-column-name", 1)
 		}
 	}
 	for i, p := range picks {
